@@ -19,6 +19,7 @@ renamings / reorderings of independent statements do not disturb it. If a patter
 the translator raises (the source lost the shape the model mirrors).
 """
 import ast
+import json
 from pathlib import Path
 
 from vlib import core
@@ -126,148 +127,315 @@ def _module_consts(tree):
     return out
 
 
-def extract():
+class _Probe:
+    """lazy semantic probe: real objects built from the source under translation, driven on fake transports
+    (harness/workers/c13_probe.py, one process per framework; run only when some shape was not recognised)"""
+
+    def __init__(self):
+        self.cache = {}
+
+    def get(self, fw):
+        if fw not in self.cache:
+            p = core.run_py(core.VERIF / "harness" / "workers" / "c13_probe.py", [fw], timeout=600)
+            if p.returncode != 0:
+                raise Shape(f"semantic probe ({fw}) failed: " + p.stderr[-400:].replace("\n", " | "))
+            self.cache[fw] = json.loads(p.stdout)
+        return self.cache[fw]
+
+
+def _read_tw_role(tw, role):
+    cname = {"Server": "WampRawSocketServerProtocol", "Client": "WampRawSocketClientProtocol"}[role]
+    fn = _find_func(_find_class(tw, cname), "dataReceived")
     g = {}
-    # ------------------------------------------------------------------ twisted/rawsocket.py
-    tw = _parse("twisted/rawsocket.py")
-    for role, cname in (("Server", "WampRawSocketServerProtocol"), ("Client", "WampRawSocketClientProtocol")):
-        fn = _find_func(_find_class(tw, cname), "dataReceived")
-        neq = [v for v in _neq_consts(fn) if v > 15]      # the magic octet (serializer ids are <= 15)
-        g[f"tw{role}Magic"] = _one(neq, f"twisted {role} magic octet")
-        pf = [p for p in _pow_formula(fn) if p[2] is not None]
-        base, add, shift = _one(pf, f"twisted {role} 2**(9+(o>>4))")
-        g[f"tw{role}PowBase"], g[f"tw{role}ExpAdd"], g[f"tw{role}Shift"] = base, add, shift
-        g[f"tw{role}SerMask"] = _one(_binop_consts(fn, ast.BitAnd), f"twisted {role} serializer mask")
-        eqs = []
-        for n in ast.walk(fn):
-            if isinstance(n, ast.Compare) and len(n.ops) == 1 and isinstance(n.ops[0], ast.Eq) and _int(n.comparators[0]) is not None:
-                eqs.append(_int(n.comparators[0]))
-        g[f"tw{role}HsLen"] = _one(eqs, f"twisted {role} handshake length")
-    # send guard `0 < self._max_len_send < payload_len`
-    snd = _find_func(_find_class(tw, "WampRawSocketProtocol"), "send")
-    chains = [n for n in ast.walk(snd) if isinstance(n, ast.Compare) and len(n.ops) == 2]
-    if len(chains) != 1 or not all(isinstance(o, ast.Lt) for o in chains[0].ops) or _int(chains[0].left) != 0:
-        raise Shape("twisted send(): guard `0 < max_len_send < payload_len` not found")
-    # ------------------------------------------------------------------ asyncio/rawsocket.py
-    aio = _parse("asyncio/rawsocket.py")
-    mc = _module_consts(aio)
-    for k, name in (("MAGIC_BYTE", "aioMagic"), ("FRAME_TYPE_DATA", "aioTypeData"), ("FRAME_TYPE_PING", "aioTypePing"),
-                    ("FRAME_TYPE_PONG", "aioTypePong"), ("ERR_SERIALIZER_UNSUPPORTED", "aioErrSerUnsupported")):
-        if type(mc.get(k)) is not int:
-            raise Shape(f"asyncio/rawsocket.py: {k} not an int literal")
-        g[name] = mc[k]
-    pp = _find_class(aio, "PrefixProtocol")
-    pc = _class_consts(pp)
-    if pc.get("prefix_format") != "!L" or type(pc.get("max_length")) is not int:
-        raise Shape("PrefixProtocol.prefix_format/max_length")
-    g["aioDefaultMaxLength"] = pc["max_length"]
-    dr = _find_func(pp, "data_received")
-    g["aioTypeMask"] = _one(_binop_consts(dr, ast.BitAnd), "PrefixProtocol type mask")
-    rp = _find_class(aio, "RawSocketProtocol")
-    ph = _find_func(rp, "parse_handshake")
-    g["aioSerMask"] = _one(_binop_consts(ph, ast.BitAnd), "asyncio serializer mask")
-    g["aioShift"] = _one(_binop_consts(ph, ast.RShift), "asyncio exponent shift")
-    base, add, _ = _one(_pow_formula(ph), "asyncio 2**(lexp+9)")
-    g["aioPowBase"], g["aioExpAdd"] = base, add
-    init = _find_func(rp, "__init__")
-    lexp = []
-    for n in ast.walk(init):
-        if isinstance(n, ast.Assign) and isinstance(n.targets[0], ast.Attribute) and n.targets[0].attr == "_length_exp" and _int(n.value) is not None:
-            lexp.append(_int(n.value))
-    g["aioLengthExp"] = _one(lexp, "RawSocketProtocol._length_exp")
-    # F12 shape: does WampRawSocketServerProtocol.supports_serializer() call self.abort() (before any session exists)?
-    ss = _find_func(_find_class(aio, "WampRawSocketServerProtocol"), "supports_serializer")
-    aborts = [n for n in ast.walk(ss) if isinstance(n, ast.Call) and isinstance(n.func, ast.Attribute)
-              and n.func.attr in ("abort", "close") and isinstance(n.func.value, ast.Name) and n.func.value.id == "self"]
-    g["aioServerAbortsOnUnsupported"] = bool(aborts)
-    # F14 shape: the exception class an over-long message raises on the asyncio send path:
-    # the guard `… > self.max_length_send` in WampRawSocketMixinGeneral.send(), else the one in PrefixProtocol.sendString()
-    def over_limit_raise(fn):
-        found = []
-        for n in ast.walk(fn):
-            if isinstance(n, ast.If) and isinstance(n.test, ast.Compare) and len(n.test.ops) == 1:
-                names = [m.attr for m in ast.walk(n.test) if isinstance(m, ast.Attribute)]
-                if "max_length_send" not in names:
-                    continue
-                if not isinstance(n.test.ops[0], ast.Gt) or not (isinstance(n.test.comparators[0], ast.Attribute)
-                                                                    and n.test.comparators[0].attr == "max_length_send"):
-                    raise Shape("asyncio send guard is not `<len> > self.max_length_send`")
-                for m in n.body:
-                    if isinstance(m, ast.Raise) and m.exc is not None:
-                        c = m.exc.func if isinstance(m.exc, ast.Call) else m.exc
-                        found.append(c.id if isinstance(c, ast.Name) else getattr(c, "attr", "?"))
-        return found
-    snd_aio = over_limit_raise(_find_func(_find_class(aio, "WampRawSocketMixinGeneral"), "send"))
-    if not snd_aio:
-        snd_aio = over_limit_raise(_find_func(pp, "sendString"))
-    cls = _one(snd_aio, "asyncio over-limit exception class")
-    g["aioSendOverLimitExc"] = {"PayloadExceededError": 0, "ValueError": 1}.get(cls, 2)
-    # ------------------------------------------------------------------ wamp/serializer.py
-    ser = _parse("wamp/serializer.py")
-    objbin = {}
-    sers = []
-    for n in ast.walk(ser):
-        if isinstance(n, ast.ClassDef):
-            cc = _class_consts(n)
-            if n.name.endswith("ObjectSerializer") and "NAME" in cc and "BINARY" in cc:
-                objbin[cc["NAME"]] = bool(cc["BINARY"])
-            elif n.name.endswith("Serializer") and "SERIALIZER_ID" in cc and "RAWSOCKET_SERIALIZER_ID" in cc:
-                batched = []
-                for m in ast.walk(n):
-                    if (isinstance(m, ast.Assign) and isinstance(m.targets[0], ast.Attribute)
-                            and m.targets[0].attr == "SERIALIZER_ID" and isinstance(m.value, ast.Constant)):
-                        batched.append(m.value.value)
-                sers.append((cc["SERIALIZER_ID"], cc["RAWSOCKET_SERIALIZER_ID"], _one(batched, n.name + " batched id")))
-    if not sers:
-        raise Shape("no serializer classes found")
-    g["serializers"] = []
-    for sid, rid, bid in sorted(sers, key=lambda x: x[1]):
-        if sid not in objbin:
-            raise Shape(f"BINARY flag of object serializer {sid!r} not found")
-        g["serializers"].append((sid, rid, objbin[sid], bid))
-    # ------------------------------------------------------------------ wamp/websocket.py
-    wsm = _parse("wamp/websocket.py")
-    pf = _find_func(wsm, "parseSubprotocolIdentifier")
-    strs = []
-    for n in ast.walk(pf):
-        if isinstance(n, ast.Compare) and len(n.ops) == 1 and isinstance(n.ops[0], ast.NotEq):
-            c = n.comparators[0]
-            if isinstance(c, ast.Constant) and isinstance(c.value, str):
-                strs.append(c.value)
-    g["wsWord"] = _one(strs, 'parseSubprotocolIdentifier "wamp" literal')
-    oc = _find_func(_find_class(wsm, "WampWebSocketServerProtocol"), "onConnect")
-    vers = []
-    for n in ast.walk(oc):
+    neq = [v for v in _neq_consts(fn) if v > 15]      # the magic octet (serializer ids are <= 15)
+    g[f"tw{role}Magic"] = _one(neq, f"twisted {role} magic octet")
+    pf = [p for p in _pow_formula(fn) if p[2] is not None]
+    base, add, shift = _one(pf, f"twisted {role} 2**(9+(o>>4))")
+    g[f"tw{role}PowBase"], g[f"tw{role}ExpAdd"], g[f"tw{role}Shift"] = base, add, shift
+    g[f"tw{role}SerMask"] = _one(_binop_consts(fn, ast.BitAnd), f"twisted {role} serializer mask")
+    eqs = []
+    for n in ast.walk(fn):
         if isinstance(n, ast.Compare) and len(n.ops) == 1 and isinstance(n.ops[0], ast.Eq) and _int(n.comparators[0]) is not None:
-            vers.append(_int(n.comparators[0]))
-    g["wsVersion"] = _one(vers, "server onConnect version")
-    fi = _find_func(_find_class(wsm, "WampWebSocketFactory"), "__init__")
-    prefixes = []
-    for n in ast.walk(fi):
-        if isinstance(n, ast.JoinedStr) and n.values and isinstance(n.values[0], ast.Constant):
-            prefixes.append(n.values[0].value)
-    g["wsPrefix"] = _one(prefixes, "factory protocols prefix")
-    wp = _class_consts(_find_class(_parse("websocket/protocol.py"), "WebSocketProtocol"))
-    om = _find_func(_find_class(wsm, "WampWebSocketProtocol"), "onMessage")
-    codes = {}
-    for h in [n for n in ast.walk(om) if isinstance(n, ast.ExceptHandler)]:
-        names = [m.attr for m in ast.walk(h) if isinstance(m, ast.Attribute) and m.attr.startswith("CLOSE_STATUS_CODE_")]
-        nm = _one(names, "close status in onMessage handler")
-        et = h.type.id if isinstance(h.type, ast.Name) else "?"
-        codes[et] = wp[nm]
-    if set(codes) != {"ProtocolError", "Exception"}:
-        raise Shape(f"onMessage exception ladder is {sorted(codes)}")
-    g["wsCloseProtocolError"], g["wsCloseInternalError"] = codes["ProtocolError"], codes["Exception"]
-    oo = _find_func(_find_class(wsm, "WampWebSocketProtocol"), "onOpen")
-    names = [m.attr for m in ast.walk(oo) if isinstance(m, ast.Attribute) and m.attr.startswith("CLOSE_STATUS_CODE_")]
-    g["wsCloseOnOpenError"] = wp[_one(names, "close status in onOpen")]
-    ab = _find_func(_find_class(wsm, "WampWebSocketProtocol"), "abort")
-    names = [m.attr for m in ast.walk(ab) if isinstance(m, ast.Attribute) and m.attr.startswith("CLOSE_STATUS_CODE_")]
-    g["wsCloseAbort"] = wp[_one(names, "close status in abort")]
-    cl = _find_func(_find_class(wsm, "WampWebSocketProtocol"), "close")
-    names = [m.attr for m in ast.walk(cl) if isinstance(m, ast.Attribute) and m.attr.startswith("CLOSE_STATUS_CODE_")]
-    g["wsCloseNormal"] = wp[_one(names, "close status in close")]
+            eqs.append(_int(n.comparators[0]))
+    g[f"tw{role}HsLen"] = _one(eqs, f"twisted {role} handshake length")
     return g
+
+
+def _probe_role(pr, prefix, names):
+    """names: generated key suffix -> probe key"""
+    out = {}
+    for suffix, key in names.items():
+        v = pr.get(key)
+        if type(v) is not int:
+            raise Shape(f"probe could not determine {prefix}{suffix} ({key}={v!r})")
+        out[prefix + suffix] = v
+    return out
+
+
+ROLE_KEYS = {"Magic": "magic", "PowBase": "powBase", "ExpAdd": "expAdd", "Shift": "shift", "SerMask": "serMask", "HsLen": "hsLen"}
+
+
+def _over_limit_raise(fn):
+    found = []
+    for n in ast.walk(fn):
+        if isinstance(n, ast.If) and isinstance(n.test, ast.Compare) and len(n.test.ops) == 1:
+            names = [m.attr for m in ast.walk(n.test) if isinstance(m, ast.Attribute)]
+            if "max_length_send" not in names:
+                continue
+            if not isinstance(n.test.ops[0], ast.Gt) or not (isinstance(n.test.comparators[0], ast.Attribute)
+                                                                and n.test.comparators[0].attr == "max_length_send"):
+                raise Shape("asyncio send guard is not `<len> > self.max_length_send`")
+            for m in n.body:
+                if isinstance(m, ast.Raise) and m.exc is not None:
+                    c = m.exc.func if isinstance(m.exc, ast.Call) else m.exc
+                    found.append(c.id if isinstance(c, ast.Name) else getattr(c, "attr", "?"))
+    return found
+
+
+EXC_CODE = {"PayloadExceededError": 0, "ValueError": 1}
+
+
+def extract():
+    """-> (g, how): g = generated values in a fixed order, how[key] = "read" (from the source text) | "probed" (on real objects).
+    Every group of values is first read syntactically; when its shape is not recognised the same values are obtained by the
+    semantic probe; a value that can be obtained neither way is a Shape error naming both failures."""
+    probe = _Probe()
+    vals, how = {}, {}
+
+    def group(name, reader, prober):
+        try:
+            got = reader()
+            tag = "read"
+        except Exception as e1:            # Shape, KeyError, AttributeError, SyntaxError … : the text lost the expected shape
+            try:
+                got = prober()
+                tag = "probed"
+            except Exception as e2:
+                raise Shape(f"{name}: not readable from the source text ({type(e1).__name__}: {e1}) "
+                            f"and not obtainable by probing real objects ({type(e2).__name__}: {e2})")
+        for k, v in got.items():
+            vals[k] = v
+            how[k] = tag
+
+    # ------------------------------------------------------------------ twisted/rawsocket.py
+    def parse_tw():
+        return _parse("twisted/rawsocket.py")
+    for role in ("Server", "Client"):
+        group(f"twisted {role} handshake", lambda role=role: _read_tw_role(parse_tw(), role),
+              lambda role=role: _probe_role(probe.get("twisted")[role.lower()], f"tw{role}", ROLE_KEYS))
+
+    # send guard `0 < self._max_len_send < payload_len` (no constant: the shape, or its observable effect, must be there)
+    def read_tw_send():
+        snd = _find_func(_find_class(parse_tw(), "WampRawSocketProtocol"), "send")
+        chains = [n for n in ast.walk(snd) if isinstance(n, ast.Compare) and len(n.ops) == 2]
+        if len(chains) != 1 or not all(isinstance(o, ast.Lt) for o in chains[0].ops) or _int(chains[0].left) != 0:
+            raise Shape("twisted send(): guard `0 < max_len_send < payload_len` not found")
+        return {"twSendGuardPresent": True}
+
+    def probe_tw_send():
+        if probe.get("twisted").get("sendGuard") is not True:
+            raise Shape("twisted send(): a 513-octet message to a peer that announced 512 is not refused with PayloadExceededError")
+        return {"twSendGuardPresent": True}
+    group("twisted send guard", read_tw_send, probe_tw_send)
+
+    # ------------------------------------------------------------------ asyncio/rawsocket.py
+    def parse_aio():
+        return _parse("asyncio/rawsocket.py")
+
+    def read_aio_consts():
+        mc = _module_consts(parse_aio())
+        g = {}
+        for k, name in (("MAGIC_BYTE", "aioMagic"), ("FRAME_TYPE_DATA", "aioTypeData"), ("FRAME_TYPE_PING", "aioTypePing"),
+                        ("FRAME_TYPE_PONG", "aioTypePong"), ("ERR_SERIALIZER_UNSUPPORTED", "aioErrSerUnsupported")):
+            if type(mc.get(k)) is not int:
+                raise Shape(f"asyncio/rawsocket.py: {k} not an int literal")
+            g[name] = mc[k]
+        return g
+
+    def probe_aio_consts():
+        pr = probe.get("asyncio")
+        g = _probe_role(pr["server"], "aio", {"Magic": "magic"})
+        if pr["client"].get("magic") != g["aioMagic"]:
+            raise Shape("asyncio client and server disagree on the magic octet")
+        g.update(_probe_role(pr, "aio", {"TypeData": "typeData", "TypePing": "typePing", "TypePong": "typePong",
+                                         "ErrSerUnsupported": "errSerUnsupported"}))
+        return g
+    group("asyncio module constants", read_aio_consts, probe_aio_consts)
+
+    def read_aio_prefix():
+        pp = _find_class(parse_aio(), "PrefixProtocol")
+        pc = _class_consts(pp)
+        if pc.get("prefix_format") != "!L" or type(pc.get("max_length")) is not int:
+            raise Shape("PrefixProtocol.prefix_format/max_length")
+        return {"aioDefaultMaxLength": pc["max_length"],
+                "aioTypeMask": _one(_binop_consts(_find_func(pp, "data_received"), ast.BitAnd), "PrefixProtocol type mask")}
+    group("asyncio PrefixProtocol", read_aio_prefix,
+          lambda: _probe_role(probe.get("asyncio"), "aio", {"DefaultMaxLength": "defaultMaxLength", "TypeMask": "typeMask"}))
+
+    def read_aio_hs():
+        ph = _find_func(_find_class(parse_aio(), "RawSocketProtocol"), "parse_handshake")
+        g = {"aioSerMask": _one(_binop_consts(ph, ast.BitAnd), "asyncio serializer mask"),
+             "aioShift": _one(_binop_consts(ph, ast.RShift), "asyncio exponent shift")}
+        base, add, _ = _one(_pow_formula(ph), "asyncio 2**(lexp+9)")
+        g["aioPowBase"], g["aioExpAdd"] = base, add
+        return g
+
+    def probe_aio_hs():
+        pr = probe.get("asyncio")
+        names = {"SerMask": "serMask", "Shift": "shift", "PowBase": "powBase", "ExpAdd": "expAdd"}
+        g = _probe_role(pr["server"], "aio", names)
+        if _probe_role(pr["client"], "aio", names) != g:
+            raise Shape("asyncio client and server decode octet 2 differently")
+        return g
+    group("asyncio parse_handshake", read_aio_hs, probe_aio_hs)
+
+    def read_aio_lexp():
+        init = _find_func(_find_class(parse_aio(), "RawSocketProtocol"), "__init__")
+        lexp = []
+        for n in ast.walk(init):
+            if isinstance(n, ast.Assign) and isinstance(n.targets[0], ast.Attribute) and n.targets[0].attr == "_length_exp" and _int(n.value) is not None:
+                lexp.append(_int(n.value))
+        return {"aioLengthExp": _one(lexp, "RawSocketProtocol._length_exp")}
+    group("asyncio announced exponent", read_aio_lexp, lambda: _probe_role(probe.get("asyncio"), "aio", {"LengthExp": "lengthExp"}))
+
+    # F12 shape: does WampRawSocketServerProtocol.supports_serializer() call self.abort() (before any session exists)?
+    def read_aio_abort():
+        ss = _find_func(_find_class(parse_aio(), "WampRawSocketServerProtocol"), "supports_serializer")
+        aborts = [n for n in ast.walk(ss) if isinstance(n, ast.Call) and isinstance(n.func, ast.Attribute)
+                  and n.func.attr in ("abort", "close") and isinstance(n.func.value, ast.Name) and n.func.value.id == "self"]
+        return {"aioServerAbortsOnUnsupported": bool(aborts)}
+
+    def probe_aio_abort():
+        v = probe.get("asyncio").get("serverAbortsOnUnsupported")
+        if type(v) is not bool:
+            raise Shape("asyncio server on an unsupported serializer neither answers+closes nor raises TransportLost")
+        return {"aioServerAbortsOnUnsupported": v}
+    group("asyncio unsupported-serializer path", read_aio_abort, probe_aio_abort)
+
+    # F14 shape: the exception class an over-long message raises on the asyncio send path
+    def read_aio_send():
+        aio = parse_aio()
+        found = _over_limit_raise(_find_func(_find_class(aio, "WampRawSocketMixinGeneral"), "send"))
+        if not found:
+            found = _over_limit_raise(_find_func(_find_class(aio, "PrefixProtocol"), "sendString"))
+        return {"aioSendOverLimitExc": EXC_CODE.get(_one(found, "asyncio over-limit exception class"), 2)}
+
+    def probe_aio_send():
+        v = probe.get("asyncio").get("sendOverLimitExc")
+        if not isinstance(v, str):
+            raise Shape("asyncio send(): a 513-octet message to a peer that announced 512 is not refused with an exception")
+        return {"aioSendOverLimitExc": EXC_CODE.get(v, 2)}
+    group("asyncio over-limit send", read_aio_send, probe_aio_send)
+
+    # ------------------------------------------------------------------ wamp/serializer.py
+    def read_sers():
+        ser = _parse("wamp/serializer.py")
+        objbin = {}
+        sers = []
+        for n in ast.walk(ser):
+            if isinstance(n, ast.ClassDef):
+                cc = _class_consts(n)
+                if n.name.endswith("ObjectSerializer") and "NAME" in cc and "BINARY" in cc:
+                    objbin[cc["NAME"]] = bool(cc["BINARY"])
+                elif n.name.endswith("Serializer") and "SERIALIZER_ID" in cc and "RAWSOCKET_SERIALIZER_ID" in cc:
+                    batched = []
+                    for m in ast.walk(n):
+                        if (isinstance(m, ast.Assign) and isinstance(m.targets[0], ast.Attribute)
+                                and m.targets[0].attr == "SERIALIZER_ID" and isinstance(m.value, ast.Constant)):
+                            batched.append(m.value.value)
+                    sers.append((cc["SERIALIZER_ID"], cc["RAWSOCKET_SERIALIZER_ID"], _one(batched, n.name + " batched id")))
+        if not sers:
+            raise Shape("no serializer classes found")
+        out = []
+        for sid, rid, bid in sorted(sers, key=lambda x: x[1]):
+            if sid not in objbin:
+                raise Shape(f"BINARY flag of object serializer {sid!r} not found")
+            out.append((sid, rid, objbin[sid], bid))
+        return {"serializers": out}
+
+    def probe_sers():
+        rows = probe.get("twisted").get("serializers")
+        if not rows:
+            raise Shape("no serializer class could be imported")
+        return {"serializers": [tuple(r) for r in rows]}      # importable classes only (flatbuffers is not installed)
+    group("serializer table", read_sers, probe_sers)
+
+    # ------------------------------------------------------------------ wamp/websocket.py
+    def parse_ws():
+        return _parse("wamp/websocket.py")
+
+    def ws_probe(keys):
+        def f():
+            w = probe.get("twisted").get("ws", {})
+            out = {}
+            for k in keys:
+                if w.get(k) is None:
+                    raise Shape(f"probe could not determine {k} ({w.get('error', 'no unique value')})")
+                out[k] = w[k]
+            return out
+        return f
+
+    def read_ws_word():
+        pf = _find_func(parse_ws(), "parseSubprotocolIdentifier")
+        strs = []
+        for n in ast.walk(pf):
+            if isinstance(n, ast.Compare) and len(n.ops) == 1 and isinstance(n.ops[0], ast.NotEq):
+                c = n.comparators[0]
+                if isinstance(c, ast.Constant) and isinstance(c.value, str):
+                    strs.append(c.value)
+        return {"wsWord": _one(strs, 'parseSubprotocolIdentifier "wamp" literal')}
+    group("parseSubprotocolIdentifier word", read_ws_word, ws_probe(["wsWord"]))
+
+    def read_ws_version():
+        oc = _find_func(_find_class(parse_ws(), "WampWebSocketServerProtocol"), "onConnect")
+        vers = []
+        for n in ast.walk(oc):
+            if isinstance(n, ast.Compare) and len(n.ops) == 1 and isinstance(n.ops[0], ast.Eq) and _int(n.comparators[0]) is not None:
+                vers.append(_int(n.comparators[0]))
+        return {"wsVersion": _one(vers, "server onConnect version")}
+    group("server onConnect version", read_ws_version, ws_probe(["wsVersion"]))
+
+    def read_ws_prefix():
+        fi = _find_func(_find_class(parse_ws(), "WampWebSocketFactory"), "__init__")
+        prefixes = []
+        for n in ast.walk(fi):
+            if isinstance(n, ast.JoinedStr) and n.values and isinstance(n.values[0], ast.Constant):
+                prefixes.append(n.values[0].value)
+        return {"wsPrefix": _one(prefixes, "factory protocols prefix")}
+    group("factory subprotocol prefix", read_ws_prefix, ws_probe(["wsPrefix"]))
+
+    def read_ws_codes():
+        wsm = parse_ws()
+        wp = _class_consts(_find_class(_parse("websocket/protocol.py"), "WebSocketProtocol"))
+        base = _find_class(wsm, "WampWebSocketProtocol")
+        om = _find_func(base, "onMessage")
+        codes = {}
+        for h in [n for n in ast.walk(om) if isinstance(n, ast.ExceptHandler)]:
+            names = [m.attr for m in ast.walk(h) if isinstance(m, ast.Attribute) and m.attr.startswith("CLOSE_STATUS_CODE_")]
+            nm = _one(names, "close status in onMessage handler")
+            et = h.type.id if isinstance(h.type, ast.Name) else "?"
+            codes[et] = wp[nm]
+        if set(codes) != {"ProtocolError", "Exception"}:
+            raise Shape(f"onMessage exception ladder is {sorted(codes)}")
+        g = {"wsCloseProtocolError": codes["ProtocolError"], "wsCloseInternalError": codes["Exception"]}
+        for key, fname in (("wsCloseOnOpenError", "onOpen"), ("wsCloseAbort", "abort"), ("wsCloseNormal", "close")):
+            fn = _find_func(base, fname)
+            names = [m.attr for m in ast.walk(fn) if isinstance(m, ast.Attribute) and m.attr.startswith("CLOSE_STATUS_CODE_")]
+            g[key] = wp[_one(names, "close status in " + fname)]
+        return g
+    group("WebSocket close status codes", read_ws_codes,
+          ws_probe(["wsCloseProtocolError", "wsCloseInternalError", "wsCloseOnOpenError", "wsCloseAbort", "wsCloseNormal"]))
+
+    # fixed order of the generated file (independent of which way a value was obtained)
+    order = []
+    for role in ("Server", "Client"):
+        order += [f"tw{role}{x}" for x in ("Magic", "PowBase", "ExpAdd", "Shift", "SerMask", "HsLen")]
+    order += ["aioMagic", "aioTypeData", "aioTypePing", "aioTypePong", "aioErrSerUnsupported", "aioDefaultMaxLength", "aioTypeMask",
+              "aioSerMask", "aioShift", "aioPowBase", "aioExpAdd", "aioLengthExp", "aioServerAbortsOnUnsupported", "aioSendOverLimitExc",
+              "serializers", "wsWord", "wsVersion", "wsPrefix", "wsCloseProtocolError", "wsCloseInternalError", "wsCloseOnOpenError",
+              "wsCloseAbort", "wsCloseNormal"]
+    g = {k: vals[k] for k in order}
+    return g, how
 
 
 def _chars(s):
@@ -275,7 +443,12 @@ def _chars(s):
 
 
 def render(g):
-    L = ["/- GENERATED by translate/wamp_transport.py from /repo/src/autobahn — do not edit. -/",
+    L = ["/- GENERATED by translate/wamp_transport.py from <VERIF_REPO>/src/autobahn — do not edit.",
+         "   Every value below is read from the source text (ast) when its shape is recognised and otherwise obtained by probing real",
+         "   protocol objects built from that source (harness/workers/c13_probe.py); a value obtainable neither way is a Shape error.",
+         "   Which way each value was obtained in the last run is recorded in the header of Generated/WampTransportProvenance.lean",
+         "   (a separate file that no model or proof imports, so that a behaviour-preserving refactoring — which changes provenance only — does not",
+         "   invalidate the build of the 2^16 handshake tables). -/",
          "namespace Abverif.Gen.WampTransport", ""]
     for k, v in g.items():
         if isinstance(v, bool):
@@ -295,14 +468,30 @@ def render(g):
     return "\n".join(L) + "\n"
 
 
+def render_provenance(g, how):
+    read = [k for k in g if how.get(k) == "read"]
+    probed = [k for k in g if how.get(k) == "probed"]
+    guard = how.get("twSendGuardPresent")
+    L = ["/- GENERATED by translate/wamp_transport.py — provenance of Generated/WampTransport.lean in the last run (not imported anywhere).",
+         "   read from the source text (ast): " + (", ".join(read) or "(none)"),
+         "   probed on real objects (shape not recognised in the text): " + (", ".join(probed) or "(none)"),
+         f"   twisted send guard `0 < max_len_send < payload_len`: {'shape found in the text' if guard == 'read' else 'observed by probing (513 octets to a peer announcing 512 -> PayloadExceededError)'} -/",
+         ""]
+    return "\n".join(L)
+
+
 def translate(ctx=None):
-    g = extract()
+    g, how = extract()
+    g.pop("twSendGuardPresent", None)
     core.write_if_changed(core.LEAN / "Abverif" / "Generated" / "WampTransport.lean", render(g))
+    core.write_if_changed(core.LEAN / "Abverif" / "Generated" / "WampTransportProvenance.lean", render_provenance(g, how))
+    probed = sorted(k for k, v in how.items() if v == "probed")
+    if ctx is not None and probed and hasattr(ctx, "log"):
+        ctx.log("wamp_transport: shapes not recognised, values probed on real objects: " + ", ".join(probed))
     return g
 
 
 if __name__ == "__main__":
-    import json
     import sys
     sys.path.insert(0, str(Path(__file__).resolve().parent.parent))
     print(json.dumps(translate(), indent=1))
